@@ -458,6 +458,11 @@ func globMatch(pat, s string) bool {
 	return ok
 }
 
+// proofStructure: obligations the soundness of every later obligation of the function rests on (an invariant or cut
+// assertion that is assumed afterwards, a callee precondition whose postcondition is assumed afterwards); claimed
+// even where only tagged clauses are.
+var proofStructure = map[string]bool{"inv-established": true, "inv-preserved": true, "cut": true, "pre": true}
+
 var disciplineKinds = map[string]bool{"guarded": true, "lock": true, "callback-free": true, "immutable": true, "blocking": true, "errflow": true}
 
 func (p *PropSpec) belongs(id string, pkgName string, o *Obligation) bool {
@@ -474,7 +479,7 @@ func (p *PropSpec) belongs(id string, pkgName string, o *Obligation) bool {
 		if !found {
 			return false
 		}
-	} else if p.TaggedOnly && !disciplineKinds[o.Kind] {
+	} else if p.TaggedOnly && !disciplineKinds[o.Kind] && !proofStructure[o.Kind] {
 		return false
 	} else if disciplineKinds[o.Kind] {
 		ok := false
